@@ -214,6 +214,9 @@ func childMain() {
 					opts = append(opts, slug.AllowSymlinkTarget(a))
 				}
 				p, _ := slug.NewPacker(opts...)
+				if req.PrePack != "" {
+					p.Pack(req.PrePack, io.Discard)
+				}
 				meta, err = p.Pack(req.Src, w)
 			}
 			resp.Slug = w.buf.Bytes()
@@ -236,11 +239,14 @@ func childMain() {
 
 // ---------- generators ----------
 
-var hostileNames = []string{"a", "b", "a/x", "a/b/y", "l", "l/x", "l2", "l2/x", "../dst-evil/x", "../victim", "nx/../l/x", "nx/../../victim",
+var hostileNames = []string{"t", "a/b/t", "s/a", "d", "s", "a", "b", "a/x", "a/b/y", "l", "l/x", "l2", "l2/x", "../dst-evil/x", "../victim", "nx/../l/x", "nx/../../victim",
 	"/a", "a/", "./a", "a//x", ".", "", "..", "a/../b", "a/../../dst-evil/x", "l/../x", "b/", "/l/x", "x"}
-var hostileTargets = []string{"a", "b", ".", "..", "a/..", "../dst-evil", "../victim", "a/../victim", "/w/victim", "/secret", "l", "l2", "a/b", "../dst", "../dst/a", "nx", "./b", "a/../../dst-evil", "../dst-evil/x"}
+var hostileTargets = []string{"../..", "s/a/..", "a/b/t/..", "../../etc/cfg", "a", "b", ".", "..", "a/..", "../dst-evil", "../victim", "a/../victim", "/w/victim", "/secret", "l", "l2", "a/b", "../dst", "../dst/a", "nx", "./b", "a/../../dst-evil", "../dst-evil/x"}
 
 func genHostileEntries(rng *Rng) []EntrySpec {
+	if rng.Chance(35) {
+		return genHostileTemplate(rng)
+	}
 	n := 1 + rng.Intn(4)
 	var es []EntrySpec
 	for i := 0; i < n; i++ {
@@ -268,7 +274,44 @@ func genHostileEntries(rng *Rng) []EntrySpec {
 	return es
 }
 
-var goodNames = []string{"a", "b", "c.txt", "d", "a/x", "a/y.tf", "a/b", "a/b/z", "d/e", "d/e/f", "sp ace", "-dash", ".hidden", "ünï", "d/l"}
+// genHostileTemplate: cooperating entries - a link, something else of some name,
+// then that name again as another kind or a link reached through the first link.
+func genHostileTemplate(rng *Rng) []EntrySpec {
+	mode := func() int64 { return int64([]int{0o644, 0o755, 0o777, 0o700}[rng.Intn(4)]) }
+	mk := func(name, typ, link string) EntrySpec {
+		e := EntrySpec{Name: name, Type: typ, Link: link, Mode: mode(), Mtime: 1000000000 + int64(rng.Intn(1000))}
+		if typ == "0" {
+			e.Body = fmt.Sprintf("tb%d", rng.Intn(100))
+		}
+		return e
+	}
+	if rng.Chance(25) {
+		// the same target text at two depths, the deeper (harmless) one first
+		t := rng.Pick([]string{"../..", "../../etc/cfg", "../../dst-evil", "../../victim"})
+		es := []EntrySpec{mk(rng.Pick([]string{"a/b/t", "s/a/t"}), "2", t), mk(rng.Pick([]string{"t", "a/cfg", "x"}), "2", t)}
+		if rng.Chance(30) {
+			es = append(es, mk("t/w", "0", ""))
+		}
+		return es
+	}
+	l1 := rng.Pick([]string{"a", "s/a", "l", "a/b/t"})
+	t1 := rng.Pick([]string{".", "..", "../..", "a/..", "../dst-evil", "s/.."})
+	n2 := rng.Pick([]string{"b", "d", "t", "x"})
+	kinds := []string{"0", "5", "2"}
+	k2 := rng.Pick(kinds)
+	k3 := rng.Pick(kinds)
+	t3 := rng.Pick([]string{l1 + "/..", l1 + "/../victim", l1 + "/../..", t1, "../..", l1})
+	es := []EntrySpec{mk(l1, "2", t1), mk(n2, k2, rng.Pick(hostileTargets)), mk(n2, k3, t3)}
+	if rng.Chance(40) {
+		es = append(es, mk(n2+"/inner", rng.Pick(kinds), t3))
+	}
+	if rng.Chance(30) {
+		es[0], es[1] = es[1], es[0]
+	}
+	return es
+}
+
+var goodNames = []string{"..data", "...", "..hidden/f", "a", "b", "c.txt", "d", "a/x", "a/y.tf", "a/b", "a/b/z", "d/e", "d/e/f", "sp ace", "-dash", ".hidden", "ünï", "d/l"}
 
 func genGoodEntries(rng *Rng) []EntrySpec {
 	n := 1 + rng.Intn(7)
@@ -474,7 +517,7 @@ func refUnpack(init map[string]SnapEntry, dstRel string, es []EntrySpec) (map[st
 		}
 		name := strings.TrimPrefix(e.Name, "/")
 		rel := path.Clean(name)
-		if rel == "." || strings.HasPrefix(rel, "..") {
+		if rel == "." || rel == ".." || strings.HasPrefix(rel, "../") {
 			return nil, false, false
 		}
 		if !ensureParents(rel) {
